@@ -14,5 +14,5 @@ for p in "$@"; do
   echo "--- $p rc=$r"; echo "$out" | grep -E "VIOLATION|ANALYSIS-ERROR|^  R-" | head -8
   [ $r -ne 0 ] && rc=$r
 done
-git checkout -- . ; git reset -q
+git reset -q --hard HEAD
 exit $rc
